@@ -9,7 +9,7 @@
     persistent state, any allocator answers, any hash seeds. *)
 From BBS Require Import Common.Sx Persist.PBL Persist.PBLProofs Persist.Syncer Persist.SyncerProofs Run.R07.
 From BBS Require Import Persist.LiveActs Persist.LiveCover Persist.LiveRelease Persist.LiveFair Persist.LivePut
-  Persist.LiveBound Persist.LiveTop.
+  Persist.LiveBound Persist.LiveEpoch Persist.LiveTop.
 Local Open Scope nat_scope.
 
 (** No schedule makes any step panic: in particular no wake-up channel is
@@ -177,6 +177,30 @@ Theorem upload_covered_by_next_commit : forall cfg alloc oldest init t0
 Proof. exact upload_covered_reach. Qed.
 Print Assumptions upload_covered_by_next_commit.
 
+(** ... and the epoch ID: the reference (EpochID, BlocksFromLast) and hash seed
+    that BlockIndexToBlockReference computes on the block list right after the
+    finalizer (what the key-location map stores for the object) has EpochID =
+    the written state's oldest_epoch_id + (epoch index - d) in uint32
+    arithmetic — the position at which [covers] finds the same seed. *)
+Theorem upload_covered_epoch_id : forall cfg alloc oldest init t0
+    s1 k blk seed s1' abs size off p' trA s2 e2 s2' trB s3 e3 s3' trC s4 e4 s4' t,
+  reachable cfg alloc oldest init t0 s1 ->
+  step cfg s1 (EFinalize k blk seed) = Some (Ok s1') ->
+  nth_error (s_uploads s1) k = Some (Some (PutAt abs, size)) ->
+  put_finalize (PutAt abs) blk size seed (s_pbl s1) = Ok (p', FinOk off) ->
+  run cfg s1' trA = Some (Ok s2) -> step cfg s2 e2 = Some (Ok s2') -> sync_starts s2 e2 = true ->
+  run cfg s2' trB = Some (Ok s3) -> step cfg s3 e3 = Some (Ok s3') -> sync_completes s3 e3 = true ->
+  run cfg s3' trC = Some (Ok s4) -> step cfg s4 e4 = Some (Ok s4') -> act_of s4 e4 = AGetState t ->
+  let o := obj_of (s_pbl s1) p' abs (off + size) in
+  let d := popsum cfg s1' trA + popsum cfg s2' trB + popsum cfg s3' trC in
+  abs < totalReleased (s_pbl s4) \/
+  exists st ref, written_state s4' t = Some st
+    /\ index_to_ref (abs - totalReleased p') p' = Ok (ref, o_seed o)
+    /\ d <= o_epoch o
+    /\ fst ref = u32 (fst st + N.of_nat (o_epoch o - d)).
+Proof. exact upload_covered_epoch_id_reach. Qed.
+Print Assumptions upload_covered_epoch_id.
+
 (** release_covered.  Schedule = ... (reaching s1) ; PopFront removing block fb
     [step i] ; trA = any schedule without a GetPersistentState ; e4 = loop t
     starts a state write (so: the FIRST state write started after i).  Then
@@ -325,6 +349,48 @@ Example upload_covered_example :
                 end
               | _ => False
               end
+            | _ => False
+            end
+          | _ => False
+          end
+        | _ => False
+        end
+      | _ => False
+      end
+    | _ => False
+    end
+  | _ => False
+  end.
+Proof. vm_compute. repeat split; try reflexivity. eexists. reflexivity. Qed.
+
+(** The hypothesis "a data sync that STARTED after the acknowledgement" is
+    needed: upload B (bytes 5..10, new epoch, seed 78) is acknowledged while the
+    sync started for upload A is in flight; that sync completes afterwards and
+    the state written next has write_offset 5 and only A's epoch. *)
+Example sync_started_before_ack_does_not_cover :
+  let cfg := mkConfig 10 3 in
+  let s0 := init_sys (fst (pbl_new (fun _ _ => false) 0 nil)) 0 in
+  let ok := EStep TP (mkAns true 0) in
+  let pre := (ok :: ok :: EPushBack (Some (0, 100)%Z) :: EPutStart 0 5 :: EFinalize 0 (Some 0%Z) 77
+              :: ok :: ETick 10 :: EStep TP (mkAns false 10) :: ok (* NotifySyncStarting; sync A in flight *)
+              :: EPutStart 0 5 :: nil)%list in
+  match run cfg s0 pre with
+  | Some (Ok s1) =>
+    match step cfg s1 (EFinalize 1 (Some 5%Z) 78) with
+    | Some (Ok s1') =>
+      match run cfg s1' (ok :: nil)%list with
+      | Some (Ok s3) =>
+        match step cfg s3 ok with
+        | Some (Ok s3') =>
+          match run cfg s3' (ok :: nil)%list with
+          | Some (Ok s4) =>
+            match step cfg s4 ok with
+            | Some (Ok s4') =>
+                (exists p', put_finalize (PutAt 0) (Some 5%Z) 5 78 (s_pbl s1) = Ok (p', FinOk 5))
+                /\ sync_completes s3 ok = true /\ act_of s4 ok = AGetState TP
+                /\ scan cfg Ph0 s1' (ok :: ok :: ok :: ok :: nil)%list = Ph0
+                /\ written_state s4' TP = Some (0%N, (mkBstate (0, 100)%Z 5%Z (77%N :: nil) :: nil)%list)
+                /\ obj_of (s_pbl s1) (s_pbl s1') 0 10 = mkObj 0 (0, 100)%Z 10 1 78
             | _ => False
             end
           | _ => False
